@@ -948,4 +948,43 @@ theorem regPoints_spec (w : World) (rank : Comp → Nat) (h : rankedBy w rank = 
       · have hn := node_none_of_ge w c hc
         simp [hn, Node.none]
 
+/-! ### component types -/
+
+theorem parent_below (tt : TypeTable) (h : declaredInOrder tt = true) (t p : Nat) (ht : t < tt.length)
+    (hp : parentOf tt t = some p) : p < t := by
+  unfold declaredInOrder at h
+  rw [List.all_eq_true] at h
+  have := h t (List.mem_range.mpr ht)
+  simp [hp] at this
+  exact this
+
+theorem isSub_iff (tt : TypeTable) (h : declaredInOrder tt = true) (base : Nat) :
+    ∀ (f t : Nat), t < f → t < tt.length → (isSub tt f t base = true ↔ Derives tt t base) := by
+  intro f
+  induction f with
+  | zero => intro t h0; omega
+  | succ f ih =>
+    intro t htf htl
+    constructor
+    · intro hs
+      simp only [isSub, Bool.or_eq_true, beq_iff_eq] at hs
+      rcases hs with rfl | hs
+      · exact Derives.refl _
+      · cases hp : parentOf tt t with
+        | none => simp [hp] at hs
+        | some p =>
+          simp only [hp] at hs
+          have hpt := parent_below tt h t p htl hp
+          exact Derives.step hp ((ih p (by omega) (by omega)).mp hs)
+    · intro hd
+      simp only [isSub, Bool.or_eq_true, beq_iff_eq]
+      cases hd with
+      | refl => exact Or.inl rfl
+      | step hp hd' =>
+        rename_i p
+        have hpt := parent_below tt h t p htl hp
+        right
+        simp only [hp]
+        exact (ih p (by omega) (by omega)).mpr hd'
+
 end IV.Filters
